@@ -416,13 +416,16 @@ class SchemaBuilder:
             fail(f"recursive style class {cls.__name__}")
         self.stack.append(cls)
         self.nclasses += 1
+        hidden = []
         for c in cls.__mro__:
             if c is self.magic_base or c is object:
                 continue
-            for meth in ("as_dict", "update", "copy", "__setattr__", "_freeze", "_property_names_generator",
+            for meth in ("update", "copy", "__setattr__", "_freeze", "_property_names_generator",
                          "__getattr__", "__getattribute__", "__deepcopy__", "__copy__"):
                 if meth in c.__dict__:
                     fail(f"{c.__name__} overrides MagicProperties.{meth}: not modelled")
+            if "as_dict" in c.__dict__:
+                hidden += self.as_dict_override(c)
         names = [a for a in dir(cls) if isinstance(getattr(cls, a, None), property)]
         if any("_" in n for n in names):
             fail(f"{cls.__name__}: property name contains the magic separator")
@@ -437,14 +440,45 @@ class SchemaBuilder:
             if isinstance(ps, tuple) and ps[0] == "ALIAS":
                 tgt = ps[1]
                 k = self.find_leaf_kind(cls, tgt)
-                out.append((n, ("alias", list(tgt), k)))
+                out.append((n, ("alias", list(tgt), k, n not in hidden)))
             else:
                 out.append((n, ps))
         self.stack.pop()
+        for h in hidden:
+            if not any(n == h and isinstance(ps, tuple) and ps[0] == "ALIAS" for n, ps in props):
+                fail(f"{cls.__name__}.as_dict hides `{h}`, which is not an alias property")
         for k, _ in ctor:
             if k not in names:
                 fail(f"{cls.__name__}.__init__: parameter {k} is not a property")
         return ("obj", cls.__name__, strtext, has_kw, list(ctor), out)
+
+    AS_DICT_OVERRIDE = (
+        "dict_ = super().as_dict()\n"
+        "dict_.pop({name!r}, None)\n"
+        "if flatten:\n"
+        "    dict_ = linearize_dict(dict_, separator=separator)\n"
+        "return dict_")
+
+    def as_dict_override(self, c):
+        """the only accepted override: as_dict of the base class minus one alias property"""
+        node = fn_ast(c.__dict__["as_dict"])
+        a = node.args
+        if [x.arg for x in a.args] != ["self", "flatten", "separator"] or a.vararg or a.kwarg or a.kwonlyargs \
+                or [ast.unparse(d) for d in a.defaults] != ["False", "'.'"]:
+            fail(f"{c.__name__}.as_dict: unknown signature")
+        body = strip_doc(node.body)
+        txt = body_text(body)
+        if len(body) != 4 or not isinstance(body[1], ast.Expr) or not isinstance(body[1].value, ast.Call) \
+                or len(body[1].value.args) != 2 or not isinstance(body[1].value.args[0], ast.Constant):
+            fail(f"{c.__name__}.as_dict: override of unknown shape")
+        name = body[1].value.args[0].value
+        if not isinstance(name, str) or txt != self.AS_DICT_OVERRIDE.format(name=name):
+            fail(f"{c.__name__}.as_dict: override of unknown shape")
+        lin = fn_ast(c.__dict__["as_dict"])   # linearize_dict must be the library's
+        g = c.__dict__["as_dict"].__globals__.get("linearize_dict")
+        if g is None or g.__module__ != "magpylib._src.defaults.defaults_utility" or lin is None:
+            fail(f"{c.__name__}.as_dict: linearize_dict is not defaults_utility.linearize_dict")
+        return [name]
 
     def find_leaf_kind(self, cls, tgt):
         c = cls
@@ -473,7 +507,7 @@ def emit_schema(st):
     if st[0] == "leaf":
         return "(SLeaf " + kind_text(st[1]) + ")"
     if st[0] == "alias":
-        return f"(SAlias {clist([cstr(x) for x in st[1]])} {kind_text(st[2])})"
+        return f"(SAlias {clist([cstr(x) for x in st[1]])} {kind_text(st[2])} {'true' if st[3] else 'false'})"
     _, cname, strtext, has_kw, ctor, props = st
     return ("(SObj " + cstr(cname) + (" true" if strtext else " false")
             + (" true" if has_kw else " false") + "\n  "
@@ -588,6 +622,76 @@ def tree_colors(t, out):
                     out.append(v)
 
 
+def whole_body(fn, variants, what):
+    """canonical text of a function body (docstring and assert messages dropped) must be one of the variants"""
+    txt = body_text(strip_doc(fn_ast(fn).body))
+    for name, shape in variants.items():
+        if txt == shape:
+            return name
+    fail(f"{what}: body matches none of the known forms:\n{txt}")
+
+
+RESET_FORMS = {
+    "RRebuild": "for key, val in get_defaults_dict().items():\n    setattr(self, key, val)\nreturn self",
+    "RMerge": "self.update(get_defaults_dict(), _match_properties=False)\nreturn self",
+}
+
+_PSK = ("if kwargs:\n"
+        "{line}"
+        "    style_kwargs = {{}}\n"
+        "    for k, v in kwargs.items():\n"
+        "        if k.startswith('style_'):\n"
+        "            style_kwargs[k[6:]] = v\n"
+        "        else:\n"
+        "            raise TypeError(f'__init__() got an unexpected keyword argument {{k!r}}')\n"
+        "    style.update(**style_kwargs)\n"
+        "return style")
+PROCESS_FORMS = {
+    "copy": _PSK.format(line="    style = {} if style is None else style.copy()\n"),
+    "inplace": _PSK.format(line="    if style is None:\n        style = {}\n"),
+}
+
+_M2D = ("assert isinstance(kwargs, dict)\n"
+        "assert isinstance(separator, str)\n"
+        "new_kwargs = {{}}\n"
+        "for k, v in kwargs.items():\n"
+        "    keys = k.split(separator)\n"
+        "    if len(keys) == 1:\n"
+        "        new_kwargs[keys[0]] = v\n"
+        "    else:\n"
+        "        val = {{separator.join(keys[1:]): v}}\n"
+        "        if keys[0] in new_kwargs and isinstance(new_kwargs[keys[0]], dict):\n"
+        "            {merge}\n"
+        "        else:\n"
+        "            new_kwargs[keys[0]] = val\n"
+        "for k, v in new_kwargs.items():\n"
+        "    if isinstance(v, dict):\n"
+        "        new_kwargs[k] = magic_to_dict(v, separator=separator)\n"
+        "return new_kwargs")
+M2D_FORMS = {
+    "fresh": _M2D.format(merge="new_kwargs[keys[0]] = {**new_kwargs[keys[0]], **val}"),
+    "inplace": _M2D.format(merge="new_kwargs[keys[0]].update(val)"),
+}
+
+
+def recursion_forwards(fn):
+    """get_flatten_objects_properties_recursive: get_style(subobj, default_settings, **style_kwargs) and the
+    recursive call for collection children passes style_kwargs=style_kwargs"""
+    node = fn_ast(fn)
+    gs = [n for n in ast.walk(node) if isinstance(n, ast.Call) and isinstance(n.func, ast.Name)
+          and n.func.id == "get_style"]
+    if len(gs) != 1 or ast.unparse(gs[0]) != "get_style(subobj, default_settings, **style_kwargs)":
+        fail("get_flatten_objects_properties_recursive: unknown get_style call")
+    rec = [n for n in ast.walk(node) if isinstance(n, ast.Call) and isinstance(n.func, ast.Name)
+           and n.func.id == node.name]
+    if len(rec) != 1:
+        fail("get_flatten_objects_properties_recursive: expected exactly one recursive call")
+    kws = {k.arg: ast.unparse(k.value) for k in rec[0].keywords}
+    if [ast.unparse(a) for a in rec[0].args] != ["*subobj.children"]:
+        fail("get_flatten_objects_properties_recursive: recursion is not over subobj.children")
+    return kws.get("style_kwargs") == "style_kwargs"
+
+
 def collect(repo):
     """everything GenStyle.v is printed from, as python structures (also used by harness/props/C20.py)"""
     repo = os.path.abspath(repo)
@@ -599,7 +703,7 @@ def collect(repo):
     mods = {}
     for m in ("magpylib", "magpylib._src.style", "magpylib._src.defaults.defaults_classes",
               "magpylib._src.defaults.defaults_utility", "magpylib._src.obj_classes.class_BaseGeo",
-              "magpylib._src.display.traces_generic"):
+              "magpylib._src.display.traces_generic", "magpylib._src.display.traces_utility"):
         mods[m] = importlib.import_module(m)
         f = os.path.abspath(mods[m].__file__)
         if not f.startswith(repo + os.sep):
@@ -639,6 +743,34 @@ def collect(repo):
     rows.append(("MagpyMarkers", "DefaultMarkers", style.get_families(object.__new__(markers))))
     structs = {name: sb.class_struct(sc) for name, sc in style_classes.items()}
 
+    # the family classes (names of get_families' local imports) and, per object class, its families ordered
+    # from the most generic to the most specific class (subclass relation) -- independent of the import order
+    gf = fn_ast(style.get_families)
+    famcls = {}
+    for n in ast.walk(gf):
+        if isinstance(n, ast.ImportFrom):
+            for al in n.names:
+                nm = al.asname or al.name
+                famcls[nm.lower()] = getattr(importlib.import_module(n.module), al.name)
+    spec_rows = []
+    for cname, _, fams in rows:
+        for f in fams:
+            if f not in famcls:
+                fail(f"family {f} of {cname} is not a class imported by get_families")
+        order = sorted(fams, key=lambda f: len(famcls[f].__mro__))
+        for a, b in zip(order, order[1:]):
+            if not issubclass(famcls[b], famcls[a]):
+                fail(f"families {a}/{b} of {cname} are not ordered by the subclass relation")
+        spec_rows.append((cname, order))
+    flags = {
+        "reset_mode": whole_body(dcls.DefaultSettings.reset, RESET_FORMS, "DefaultSettings.reset"),
+        "ctor_copies_style": whole_body(basegeo._process_style_kwargs, PROCESS_FORMS,   # pylint: disable=protected-access
+                                        "BaseGeo._process_style_kwargs") == "copy",
+        "magic_merge_fresh": whole_body(dutil.magic_to_dict, M2D_FORMS, "magic_to_dict") == "fresh",
+        "recursion_forwards_style_kwargs": recursion_forwards(
+            mods["magpylib._src.display.traces_utility"].get_flatten_objects_properties_recursive),
+    }
+
     # colours
     pool = list(COLOR_POOL)
     tree_colors(defaults, pool)
@@ -658,7 +790,7 @@ def collect(repo):
         if r is not None:
             pool.append(r)      # the table is closed under canonical outputs (idempotence is checked in Coq)
     return {"DEFAULTS": defaults, "defaults_schema": defaults_struct, "style_classes": structs,
-            "object_classes": rows, "ctor_style": fwd, "colors": table,
+            "object_classes": rows, "ctor_style": fwd, "colors": table, "family_spec": spec_rows, "flags": flags,
             "stats": (sb.nclasses, sb.nprops, sorted(set((a, b, tuple(c)) for a, b, c in sb.aliases)))}
 
 
@@ -685,6 +817,17 @@ def generate(repo):
     out.append("Definition ctor_style : list (string * (bool * string)) :=\n  "
                + clist([f"({cstr(c)}, ({'true' if ok else 'false'}, {cstr(d)}))" for c, ok, d in g["ctor_style"]],
                        ";\n   ") + ".\n")
+    out.append("(* families of each object class from the most generic to the most specific class *)")
+    out.append("Definition family_spec : list (string * list string) :=\n  "
+               + clist([f"({cstr(c)}, {clist([cstr(f) for f in fams])})" for c, fams in g["family_spec"]],
+                       ";\n   ") + ".\n")
+    fl = g["flags"]
+    b = lambda x: "true" if x else "false"    # noqa: E731
+    out.append("(* source forms recognised as a whole *)")
+    out.append(f"Definition reset_mode : rmode := {fl['reset_mode']}.")
+    out.append(f"Definition ctor_copies_style : bool := {b(fl['ctor_copies_style'])}.")
+    out.append(f"Definition magic_merge_fresh : bool := {b(fl['magic_merge_fresh'])}.")
+    out.append(f"Definition recursion_forwards_style_kwargs : bool := {b(fl['recursion_forwards_style_kwargs'])}.\n")
     out.append("Definition colors : color_table :=\n  "
                + clist([f"({cval(v)}, {coval(r)})" for v, r in g["colors"]], ";\n   ") + ".\n")
     nc, npr, al = g["stats"]
